@@ -199,6 +199,10 @@ impl FileTree {
                 }
             }
         }
+        // The root of the tree is the package root, whatever its file is
+        // called (like `single_file`): `pkg.…` paths and `get_function`
+        // start from the module `pkg`.
+        files[0].module_name = "pkg".into();
         Self { files }
     }
 
